@@ -161,11 +161,36 @@ def _theorem_at(vpath, line):
     return name
 
 
+def with_companions(prop_files):
+    """Properties/Properties_Cnn.v -> itself plus its companion files Properties/Properties_Cnn_*.v (further theorems of
+    the same property kept in separate files).  Only companions tracked by git count: a file an engineer is still
+    writing is not an obligation yet (without git every companion present counts)."""
+    out = []
+    for p in prop_files:
+        if p not in out:
+            out.append(p)
+        m = re.fullmatch(r"Properties/Properties_(C\d\d)\.v", p)
+        if not m:
+            continue
+        comps = sorted("Properties/" + os.path.basename(f)
+                       for f in glob.glob(os.path.join(COQ, "Properties", "Properties_%s_*.v" % m.group(1))))
+        try:
+            rc, o = sh(["git", "-C", VERIF, "ls-files", "coq/Properties"], timeout=30)
+            tracked = set(l.strip()[4:] for l in o.splitlines()) if rc == 0 and o.strip() else None
+        except Exception:
+            tracked = None
+        for c in comps:
+            if (tracked is None or c in tracked) and c not in out:
+                out.append(c)
+    return out
+
+
 def coq_build(prop_files, timeout=1500, jobs=None):
     """make the .vo of the given Properties files (paths relative to coq/, '.v').
     Obligations = Theorem/Example statements in those files."""
     t0 = time.time()
     res = CoqResult()
+    prop_files = with_companions(prop_files)
     coq_makefile()
     bad = forbidden_scan()
     targets = [p[:-2] + ".vo" for p in prop_files]
